@@ -37,6 +37,7 @@ THEOREMS = [
     "error_mapping", "status_mapping", "failures_propagate", "nonascii_url_rejected_before_io", "timeout_choice",
     "cookie_history", "cookie_header_matches_history", "jar_unique", "reply_cookies_stored_partial",
     "reply_cookies_stored_refuted", "error_replies_leave_jar",
+    "writeback_keeps_wire", "writeback_keeps_body", "writeback_has_no_cookie", "resend_carries_the_same",
 ]
 
 PRE = "From SV Require Import Lib.Base C15.Base64 C15.Model."
@@ -349,6 +350,7 @@ def run_session(server, sess, clients):
     from suds.transport import Request
     t = make_transport(sess["kind"], sess["user"], sess["pw"])
     obs = []
+    last_req = None       # the previous Request object / its (caller-owned) headers dict
     for st in sess["steps"]:
         def script(phase, rec, st=st):
             if phase == "accept":
@@ -357,16 +359,32 @@ def run_session(server, sess, clients):
                 return Resp(401, [(b"WWW-Authenticate", b'Basic realm="c15"')], st["challenge"])
             hs = []
             if st["ce"] is not None:
-                hs.append((b"Content-Encoding", st["ce"]))
+                hs.append((st.get("ce_name") or b"Content-Encoding", st["ce"]))
             hs += cookie_lines(st["cookies"])
             return Resp(st["status"], hs, st["body"])
         server.begin(script)
         url = server.base + st["path"]
         msg = st["msg"]
+        reused = False
         if st["via"] is None:
-            def call(url=url, msg=msg, st=st):
-                r = Request(url, msg)
-                r.headers = dict(st["hdrs"])
+            style = st.get("reuse")
+            try:
+                if style == "request" and last_req is not None:
+                    r, reused = last_req, True                     # the SAME Request object is sent again
+                    msg = r.message if isinstance(r.message, (bytes, bytearray)) else msg
+                elif style == "dict" and last_req is not None:
+                    r, reused = Request(url, msg), True            # a new Request sharing the caller's dict
+                    r.headers = last_req.headers
+                else:
+                    r = Request(url, msg)
+                    r.headers = dict(st["hdrs"])
+            except Exception:   # noqa
+                r = None
+            last_req = r
+
+            def call(r=r):
+                if r is None:
+                    raise RuntimeError("the Request could not be constructed")
                 return t.send(r)
         else:
             cl, tap, _ = clients[st["via"]]
@@ -382,7 +400,7 @@ def run_session(server, sess, clients):
             msg = cap if isinstance(cap, (bytes, bytearray)) else b"\x00nothing-captured"
         last = server.requests[-1] if server.requests else {"line": b"", "headers": [], "body": b""}
         obs.append({"conns": server.conns, "line": last["line"], "headers": last["headers"],
-                    "body": last["body"], "result": res, "msg": bytes(msg)})
+                    "body": last["body"], "result": res, "msg": bytes(msg), "reused": reused})
     return obs
 
 
@@ -404,8 +422,9 @@ def c_ev(e):
 
 def c_step(sess, st, ob, clients, blobs):
     action = None if st["via"] is None else clients[st["via"]][2]
-    q = "(mkReq %s %s %s %s)" % (copt(cbytes(action) if action is not None else None, "bytes"),
-                                 cstr(st["path"]), c_hdict(st["hdrs"]), blobs.c(ob["msg"]))
+    q = "(mkReq %s %s %s %s %s)" % (copt(cbytes(action) if action is not None else None, "bytes"),
+                                    cstr(st["path"]), c_hdict(st["hdrs"]), blobs.c(ob["msg"]),
+                                    cbool(bool(ob.get("reused"))))
     p = "(mkResp %s %s %s %s %s %s %s)" % (
         blobs.copt(st["challenge"]), cN(st["status"]),
         copt(cbytes(st["ce"]) if st["ce"] is not None else None, "bytes"),
@@ -625,6 +644,9 @@ def gen_step(rng, via, cookies, challenge, allow_auth, status=None):
         st["status"] = gen_status(rng) if status is None else status
         plain = b"" if st["status"] in NO_BODY_STATUS else gen_bytes(rng)
     st["ce"] = None
+    # header NAMES are case-insensitive too: servers and gateways spell them as they like
+    st["ce_name"] = rng.choice([b"Content-Encoding", b"Content-Encoding", b"content-encoding", b"CONTENT-ENCODING",
+                                b"Content-encoding", b"cOnTeNt-EnCoDiNg"])
     st["body"] = plain
     if 200 <= st["status"] < 300 and st["status"] not in NO_BODY_STATUS:
         r = rng.random()
@@ -724,6 +746,32 @@ def gen_quirk(rng, cat, clients_n):
     return s
 
 
+def gen_reuse_session(rng, style):
+    """>= 3 sends on one transport with a caller-owned headers dict that persists (style "request":
+    the same Request object sent again; "dict": new Requests sharing one dict), while the server
+    sets a cookie, then replaces or expires it, then goes on."""
+    kind = rng.choice(KINDS)
+    user = pw = None
+    if kind != "TPlain" and rng.random() < 0.6:
+        user, pw = gen_text(rng, colon=False), gen_text(rng)
+    has_creds = user is not None and pw is not None
+    n = rng.choice([3, 3, 4, 5])
+    steps = []
+    for i in range(n):
+        st = gen_step(rng, None, True, kind == "TChallenge" and has_creds and rng.random() < 0.4,
+                      allow_auth=not (has_creds and kind != "TPlain"), status=200 if i < 2 or rng.random() < 0.7 else None)
+        st["reuse"] = style
+        if i > 0:
+            st["hdrs"] = steps[0]["hdrs"]
+            if style == "request":
+                st["path"], st["msg"] = steps[0]["path"], steps[0]["msg"]
+        steps.append(st)
+    name = rng.choice([b"sid", b"a"])
+    steps[0]["cookies"] = [("set", "/", name, b"first%d" % rng.randrange(100))]
+    steps[1]["cookies"] = [rng.choice([("set", "/", name, b"second%d" % rng.randrange(100)), ("exp", "/", name)])]
+    return {"kind": kind, "user": user, "pw": pw, "steps": steps}
+
+
 def hexs(b):
     return None if b is None else bytes(b).hex()
 
@@ -732,8 +780,8 @@ def session_payload(sess):
     steps = []
     for st in sess["steps"]:
         d = dict(st)
-        for k in ("msg", "body", "challenge", "ce"):
-            d[k] = hexs(st[k])
+        for k in ("msg", "body", "challenge", "ce", "ce_name"):
+            d[k] = hexs(st.get(k))
         d["cookies"] = [[e[0], e[1]] + [x.decode("ascii") for x in e[2:]] for e in st["cookies"]]
         d["hdrs"] = [[k, v] for k, v in st["hdrs"]]
         steps.append(d)
@@ -744,8 +792,8 @@ def session_from_payload(p):
     steps = []
     for d in p["steps"]:
         st = dict(d)
-        for k in ("msg", "body", "challenge", "ce"):
-            st[k] = None if d[k] is None else bytes.fromhex(d[k])
+        for k in ("msg", "body", "challenge", "ce", "ce_name"):
+            st[k] = None if d.get(k) is None else bytes.fromhex(d[k])
         st["cookies"] = [tuple([e[0], e[1]] + [x.encode("ascii") for x in e[2:]]) for e in d["cookies"]]
         st["hdrs"] = [(k, v) for k, v in d["hdrs"]]
         steps.append(st)
@@ -897,10 +945,11 @@ def finding_keys(sess, obs, failed):
                                for st in sess["steps"] for k, v in st["hdrs"]):
             key, what = "C15:content-encoding-case-sensitive", ("a Content-Encoding request header in another spelling is "
                                                                 "sent as a label while the body is not compressed")
-        elif part == 4 and any(st["ce"] is not None and st["ce"].lower() in (b"gzip", b"deflate") and st["ce"] != st["ce"].lower()
+        elif part == 4 and any(st["ce"] is not None and st["ce"].lower() in (b"gzip", b"deflate")
+                               and (st["ce"] != st["ce"].lower() or (st.get("ce_name") or b"Content-Encoding") != b"Content-Encoding")
                                for st in sess["steps"]):
-            key, what = "C15:content-encoding-case-sensitive", ("a reply labelled gzip/deflate in another case is returned "
-                                                                "still compressed")
+            key, what = "C15:content-encoding-case-sensitive", ("a reply labelled gzip/deflate with the header name or the "
+                                                                "coding in another case is returned still compressed")
         out.append((key, what))
     return out
 
@@ -1034,6 +1083,13 @@ def run(ck):
             q["cat"] = cat
             sessions.append(q)
             ck.count("corner-" + cat)
+    # caller-owned header dicts that persist across sends (Request re-sent / dict shared) in cookie histories
+    for style in ("request", "dict"):
+        for _ in range(150 if thorough else 30):
+            q = gen_reuse_session(rng, style)
+            q["cat"] = "reuse-" + style
+            sessions.append(q)
+            ck.count("corner-reuse-" + style)
     if not clients:
         for s in sessions:
             for st in s["steps"]:
